@@ -46,7 +46,8 @@ _c = fragcheck.FragCheck(
     PROP, evaluate,
     profiles=[(3, dict(_P), "mixed"), (2, dict(_P, direct_only=True), "direct"),
               (1, dict(_P, max_subs=5, max_depth=4), "deep"),
-              (2, dict(_P, max_subs=4, max_stmts=3, weights={"call": 8, "ret": 3, "doloop": 2}), "call-heavy")],
+              (2, dict(_P, max_subs=4, max_stmts=3, weights={"call": 8, "ret": 3, "doloop": 2}), "call-heavy"),
+              (1, {"lattice": True, "keys": ["Type", "OC", "AppID", "Addr"]}, "call-lattice")],
     sizes={"quick": (32, 45), "thorough": (160, 160)},
     rule="fragment programs biased to TypeEnum/OnCompletion/ApplicationID checks (by word and number, both operand orders, "
          "&&/||/!, bare `txn ApplicationID`) x all kind valuations; non-trivial = distinct (program, block, kind label) "
